@@ -90,7 +90,7 @@ def decode_concat(d):
 
 def parts(tier):
     n = 2500 if tier == "quick" else 20000
-    m = 800 if tier == "quick" else 6000
+    m = 2500 if tier == "quick" else 8000
     return [
         core.Part("pairs", "exhaustive", pair_cases),
         core.Part("splits", "sampled", lambda: gen.cases(decode_split, 512), budget=n),
